@@ -42,7 +42,6 @@ FORM = "antismash/common/secmet/features/candidate_cluster/formation.py"
 # ids under which the recorded defects of other properties are listed for C07 (known_findings.json)
 KF_SUPERIOR = "KF-C07-superior-overlap"          # = KF-C03-superior-overlap seen through two runs
 KF_FORMATION = "KF-C07-pending-formation"        # = pending:formation (C05's file)
-KF_FULL_ORDER = "KF-C07-full-record-order"       # = KF-C06-full-record-order
 
 _CAPTURE: Dict[str, Any] = {}
 _PATCHED: Dict[str, Any] = {}
@@ -327,13 +326,25 @@ class C07(Property):
             out = keep + rest[:12 - len(keep)]
         return out
 
+    @staticmethod
+    def tame(rng: random.Random, case: Dict[str, Any]) -> None:
+        """mostly keep the distances small against the ring, so that regions stay below half of it
+           (the statement's own guard); one case in six is left as generated"""
+        if not case["circ"] or rng.random() < 0.16:
+            return
+        length = case["len"]
+        for r in case["rules"]:
+            r["nbhd"] = min(r["nbhd"], max(length // 10, 0))
+            r["cutoff"] = min(r["cutoff"], max(length // 6, 1))
+
     def finish(self, rng: random.Random, case: Dict[str, Any], cap: int, every: bool, full: bool) -> Dict[str, Any]:
+        self.tame(rng, case)
         case["rots"] = self.rotations(rng, case, cap, every)
         case["variants"] = self.variants(rng, case, full)
         return case
 
     def cases(self, rng: random.Random, tier: str, deep: bool) -> Iterator[Dict[str, Any]]:
-        n = 3200 if deep else 330
+        n = 2000 if deep else 600
         cap = 24 if deep else 12
         for i in range(n):
             r = rng.random()
@@ -375,7 +386,7 @@ class C07(Property):
         if not full:
             combos = rng.sample(combos, 12)
         for starts in combos:
-            for profs in itertools.product(["a", "b", "ab"], repeat=len(starts)):
+            for profs in itertools.product(["a", "b", "ab"] if len(starts) == 2 else ["a", "b"], repeat=len(starts)):
                 if not full and rng.random() < 0.8:
                     continue
                 for rules in rulesets:
@@ -579,11 +590,8 @@ class C07(Property):
                 for core in present:
                     why = [r for r in run_abs["removed"] if r[0] == rule and set(r[1]) & set(core)]
                     if not why:
-                        # the cluster may have been merged after the step in one run only because a neighbour was removed
-                        others = [r for r in (a["removed"] + b["removed"]) if r[0] == rule]
-                        if not others:
-                            return False, undocumented, f"{rule}: protocluster with core genes {list(core)} missing from the {tag} run, nothing removed by superiors"
-                        why = others
+                        return False, undocumented, (f"{rule}: protocluster with core genes {list(core)} missing from the {tag} run, "
+                                                     f"and no protocluster removed by superiors there shares a core gene with it")
                     for r in why:
                         if not r[2]:
                             undocumented = True
@@ -688,11 +696,9 @@ class C07(Property):
                     failures.append((KF_FORMATION, f"{label} same protoclusters, candidate clusters differ: base {base['cands']} vs rotated {run['cands']}"))
                     continue
                 if run["regions"] != base["regions"]:
-                    clash = (d["regions"] or {}).get("clash") or (dbase["regions"] or {}).get("clash")
                     bad = [lab for lab, dd in (("base", dbase), ("rotated", d))
                            if dd["regions"] and not (dd["regions"]["partition"] and dd["regions"]["disjoint"] and dd["regions"]["exact"] and dd["regions"]["wf"])]
-                    failures.append((KF_FULL_ORDER if clash else None,
-                                     f"{label} same candidate clusters, regions differ: base {base['regions']} vs rotated {run['regions']}; "
+                    failures.append((None, f"{label} same candidate clusters, regions differ: base {base['regions']} vs rotated {run['regions']}; "
                                      f"C06's spec fails on: {bad or 'neither run'}"))
                     continue
             else:
